@@ -90,6 +90,22 @@ P = {
        "truncation of small frames under the four chains.",
   note=TB + "SHA-256d checksum has ≥ 4 bytes is an explicit hypothesis (ChecksumLen); altered-payload rejection assumes the 32-bit checksum differs (explicit hypothesis).",
   tech="Lean 4 proof (codec round trip with stream position, fault-class decision logic) + tables + correspondence"),
+ 'C03': dict(
+  text="Lean theorems for every transaction, every subscript that parses, every index 0..|vin| and all hash types: "
+       "FindAndDelete of OP_CODESEPARATOR = concatenation of the other operations (push data untouched), "
+       "RawSignatureHash as written (scratch copy, blanking, list surgery) = Bitcoin Core's on-the-fly "
+       "CTransactionSignatureSerializer digest incl. the HASH_ONE cases (raw_eq_spec, err_iff), wrapper raises "
+       "ValueError iff err. Tied by T1 (SIGHASH constants, HASH_ONE from the AST) and runs over all 256 hash types "
+       "per sampled (tx, subscript, index), checking that the caller's transaction is unchanged.",
+  note=TB + "SHA-256d opaque; the aliasing half (never changes the transaction it was given) is observed by T2 and modelled in C09's heap model.",
+  tech="Lean 4 proof (Model = Spec for all hash types) + tables + correspondence (256 hash types exhaustive per case)"),
+ 'C04': dict(
+  text="Lean theorems for every transaction in wire range, valid index, script code of any length, amount in "
+       "[0,2^63), all hash types: witness-v0 SignatureHash = BIP143 digest (bip143_eq_spec) and is defined on the "
+       "whole range (bip143_defined / bip143_no_pyexc: no struct.error branch reachable). Tied by runs over all 256 "
+       "hash types with lock time/sequence/amount at their unsigned and signed edges.",
+  note=TB + "SHA-256d opaque.",
+  tech="Lean 4 proof (Model = BIP143 Spec; definedness = dead error branches) + correspondence"),
 }
 
 REASON_PENDING = "check under construction in this build round (model/theorems not yet merged); see DESIGN.md §10/§11"
